@@ -14,8 +14,12 @@ import (
 // state that the public API does not expose. Nothing here changes behaviour.
 
 type verifTracerFn func(ev string, args ...any)
+type verifGateFn func(site string, id uint64)
 
-var verifTracer atomic.Pointer[verifTracerFn]
+var (
+	verifTracer atomic.Pointer[verifTracerFn]
+	verifGater  atomic.Pointer[verifGateFn]
+)
 
 // VerifSetTracer installs fn as the receiver of trace events (nil removes it).
 func VerifSetTracer(fn func(ev string, args ...any)) {
@@ -25,6 +29,26 @@ func VerifSetTracer(fn func(ev string, args ...any)) {
 	}
 	f := verifTracerFn(fn)
 	verifTracer.Store(&f)
+}
+
+// VerifSetGate installs fn as the gate function (nil removes it). Gates are
+// called between two critical sections of one AddEntry / DeleteEntry call
+// (no lock held) and between the network instances of a Flush (which holds the
+// locks of the instances it has already emptied); the harness may block them
+// to force an interleaving. id is the operation ID where it is known, else 0.
+func VerifSetGate(fn func(site string, id uint64)) {
+	if fn == nil {
+		verifGater.Store(nil)
+		return
+	}
+	f := verifGateFn(fn)
+	verifGater.Store(&f)
+}
+
+func verifGate(site string, id uint64) {
+	if f := verifGater.Load(); f != nil {
+		(*f)(site, id)
+	}
 }
 
 func verifTrace(ev string, args ...any) {
